@@ -147,3 +147,50 @@ P.verify(fn(
              ('residual_demand_is_wealth_times_its_weight', blob("'DEM_' + residual_asset_code", "'F * WGT_' + residual_asset_code"))],
     raises=[RaisesSpec('ValueError', when='True')],
 ))
+
+# ---- DepositMarket._GenerateEquations: holder aggregation and the interest bookings ----------------------------------------------------
+cls('DepositMarket', fields=dict(IssuerShortCode=STR, SearchListSource=Ref('CurrencyZone')))
+DN = "'DEM_' + self.Code"
+HOLDER = "(not is_market(ZL[%s]) and ZL[%s].Code != self.IssuerShortCode and had_[%s] == 1)"
+
+
+@specfn('is_market')
+def is_market(ctx, s):
+    """isinstance(s, Market): the dynamic type tag of s is Market or a subclass"""
+    return mk_bool(ctx.st.tag_fact(SV(Ty('ref', 'Market'), s.t)))
+
+
+PRIV_D = ('list_same_as(HP, ZL) and list_same_as(HP, dem_terms) and list_same_as(HP, had_) and list_same_as(HP, pos_) and list_same_as(HP, paid_) and '
+          'dem_terms is not keys(mod_of(s).Aliases) and dem_terms is not keys(mod_of(self).Aliases)')
+KEEP_D = '_assume(%r)\n_snapshot("HP")' % PRIV_D
+ZONE_OK = 'all(allocated(self.SearchListSource.CountryList[cc]) and allocated(self.SearchListSource.CountryList[cc].SectorList) for cc in range(0, len(self.SearchListSource.CountryList)))'
+P.verify(fn(
+    'sfc_models.sector_definitions.DepositMarket._GenerateEquations',
+    args=dict(self=Ref('DepositMarket')),
+    requires=[('zone_objects_exist', ZONE_OK), ('market_code_is_local', "not ('__' in 'LAG_DEM_' + self.Code) and not ('__' in 'LAG_SUP_' + self.Code)")],
+    hints={'strip_rich': True, ('empty_list', 'dem_terms'): STR, ('empty_list', 'had_'): INT, ('empty_list', 'pos_'): INT, ('empty_list', 'paid_'): INT},
+    ghost_after=[('dem_terms = []', 'had_ = []\npos_ = []\npaid_ = []'),
+                 ("dem_name = 'DEM_' + self.Code", 'if len(had_) > 0:\n    if dem_name in s.EquationBlock.Equations:\n        had_[len(had_) - 1] = 1\n_snapshot("HP")'),
+                 ("re:s\\.AddCashFlow\\('\\+INT' \\+ self\\.Code, .*",
+                  "_assert(%r, 'holder_is_booked_the_interest')" % "Den(s.EquationBlock.Equations['F']) == at(HP, Den(s.EquationBlock.Equations['F'])) + V(nospace('+INT' + self.Code))" + '\npaid_[len(paid_) - 1] = 1\n' + KEEP_D),
+                 ("re:s\\.AddCashFlow\\('-INT' \\+ self\\.Code, .*",
+                  "_assert(%r, 'issuer_is_booked_the_interest_paid')" % "Den(s.EquationBlock.Equations['F']) == at(HP, Den(s.EquationBlock.Equations['F'])) + V(nospace('-INT' + self.Code))" + '\n' + KEEP_D),
+                 ('dem_terms.append(s.GetVariableName(dem_name))', 'pos_[len(pos_) - 1] = len(dem_terms) - 1\n_snapshot("HP")'),
+                 ('re:self\\.AddVariable\\(dem_name, .*', 'pass'),          # (the statement after the loop)
+                 ('re:(s|self)\\.(AddVariable|AddCashFlow)\\(.*', KEEP_D),
+                 ('re:term = s\\.GetVariableName\\(dem_name\\)', KEEP_D)],
+    loops={0: LoopSpec(header='for s in self.SearchListSource.GetSectors()', index='i', ghost={'ZL': '_it'}, body_ghost='had_.append(0)\npos_.append(0 - 1)\npaid_.append(0)\n_snapshot("HP")',
+                       modifies=['len.*', 'el.*', 'dh.*', 'dv.*', 'dk', 'tyof', 'f.Equation.*', 'f.Term.*'], invariants=[
+        ('bounds', '0 <= i and i <= len(ZL)'),
+        ('scratch', 'fresh(ZL) and fresh(dem_terms) and fresh(had_) and fresh(pos_) and fresh(paid_) and had_ is not pos_ and paid_ is not pos_ and paid_ is not had_'),
+        ('one_record_per_sector_examined', 'len(had_) == i and len(pos_) == i and len(paid_) == i'),
+        ('every_holder_in_the_total_is_paid_interest', 'all(implies(pos_[j] >= 0, paid_[j] == 1) for j in range(0, i))'),
+        ('zone_objects_exist', ZONE_OK),
+        ('sector_identities_kept', "heap_unchanged_except('tyof', 'len.*', 'el.*', 'dh.*', 'dv.*', 'dk', 'f.Equation.*', 'f.Term.*')"),
+        ('a_term_for_exactly_the_holders', 'all(iff(pos_[j] >= 0, %s) and (pos_[j] >= 0 or pos_[j] == 0 - 1) and implies(pos_[j] >= 0, pos_[j] < len(dem_terms)) for j in range(0, i))' % (HOLDER % ('j', 'j', 'j'))),
+        ('terms_in_list_order', 'all(implies(pos_[j1] >= 0 and pos_[j2] >= 0 and j1 < j2, pos_[j1] < pos_[j2]) for j1 in range(0, i) for j2 in range(0, i))'),
+    ])},
+    ensures=[],
+    raises=[RaisesSpec('SyntaxError', when='True'), RaisesSpec('LogicError', when='True'), RaisesSpec('NotImplementedError', when='True'),
+            RaisesSpec('ValueError', when='True'), RaisesSpec('IndexError', when='True'), RaisesSpec('KeyError', when='True')],
+))
